@@ -35,6 +35,7 @@ const (
 	cmdE = 105 // unregistered
 	cmdF = 106 // first registered raw, then re-registered authenticated (auth + enc REQUIRED, DAEMON)
 	cmdG = 107 // first registered authenticated, then re-registered raw
+	cmdH = 108 // auth OPTIONAL, enc PREFERRED (encryption is negotiated but not demanded), perm READ
 )
 
 var c05Cmds = []int{cmdA, cmdB, cmdC, cmdD, cmdE}
@@ -54,6 +55,7 @@ var c05Pol = map[int]c05Policy{
 	cmdE: {},
 	cmdF: {security.SecurityRequired, security.SecurityRequired, "DAEMON", false, true},
 	cmdG: {"", "", "", true, true},
+	cmdH: {security.SecurityOptional, security.SecurityPreferred, "READ", false, true},
 }
 
 // authorizer tables: user prefix -> perms
@@ -173,6 +175,7 @@ func newC05World(res *vlib.Result, hist, layout string) *c05World {
 	w.srv.Handle(cmdF, handler(false), "DAEMON")
 	w.srv.Handle(cmdG, handler(false), "READ")
 	w.srv.HandleRaw(cmdG, handler(true))
+	w.srv.Handle(cmdH, handler(false), "READ")
 	w.setTable("")
 	return w
 }
@@ -607,6 +610,9 @@ func c05Alphabet(tier string) []c05Event {
 	for _, c := range []int{cmdF, cmdG} {
 		ev = append(ev, c05Event{kind: "open", who: "alice", cmd: c})
 	}
+	for _, k := range []string{"alice", "anon", "keyskip"} {
+		ev = append(ev, c05Event{kind: "open", who: k, cmd: cmdH})
+	}
 	for _, c := range append(append([]int(nil), c05Cmds...), cmdF, cmdG) {
 		ev = append(ev, c05Event{kind: "follow", cmd: c})
 	}
@@ -677,7 +683,7 @@ func c05Run(hist []c05Event, layout string) *vlib.Result {
 func C05Plan() *vlib.Plan {
 	p := &vlib.Plan{
 		Property: "C05", Level: "model_checking", Procs: 16,
-		Rule:   "Bounded history enumeration on a real server.Server with commands A (auth/enc OPTIONAL, READ), B (auth REQUIRED, WRITE), C (auth+enc REQUIRED, DAEMON), D (raw), E (unregistered), F (registered raw, then re-registered authenticated with C's policy), G (registered authenticated, then re-registered raw), per-command policies and a switchable authorizer table, in two layouts (permissive default + a per-command answer for every command; strictest default + a per-command hook that returns nil for C so that C's policy arrives through the fallback - run for every history that mentions C; and permissive default + an FQUMapper, the authorizer table applying to the MAPPED names while a raw name would be allowed everything - run for every history that sets a table). Events: open a connection as {alice, bob (TOKEN), unauthenticated, plaintext, 'lurker' (lists TOKEN but holds no token: a method is pre-selected yet nothing ever runs), scripted key-skipping CLAIMTOBE client} with first command x; follow-on command x on the kept-alive connection; reconnect and explicitly resume the client's last session with command x; switch the authorizer table; raw send of x. All histories <= 3 events (quick: reduced alphabet; thorough: full alphabet) plus, in thorough, all histories of 4 events over a core alphabet (follow requires an open connection, resume requires a prior session). Plus all histories <= 3 over {open as alice / anonymous / 'alice-nc' / 'carol-nc' (TOKEN / CLAIMTOBE with no cipher in common: authenticated sessions whose key has no cipher / that have no key at all), a scripted requester without key or credentials naming one of their session ids in a resumption request, table switches}, against the default server and against a server configured with a session cache of its own. A monitor inside every handler records each dispatch; oracle: registered + right path (raw vs authenticated), authentication really ran on the wire for that session when the command requires it, stream really encrypted and canaries invisible when it requires encryption, identity currently authorized when a table is set; refused/unknown commands close the connection and nothing further runs. Non-trivial = history with >= 1 dispatch decision.",
+		Rule:   "Bounded history enumeration on a real server.Server with commands A (auth/enc OPTIONAL, READ), B (auth REQUIRED, WRITE), C (auth+enc REQUIRED, DAEMON), D (raw), E (unregistered), F (registered raw, then re-registered authenticated with C's policy), G (registered authenticated, then re-registered raw), H (auth OPTIONAL, enc PREFERRED: encryption negotiated but not demanded - opened by alice, the unauthenticated and the key-skipping client), per-command policies and a switchable authorizer table, in two layouts (permissive default + a per-command answer for every command; strictest default + a per-command hook that returns nil for C so that C's policy arrives through the fallback - run for every history that mentions C; and permissive default + an FQUMapper, the authorizer table applying to the MAPPED names while a raw name would be allowed everything - run for every history that sets a table). Events: open a connection as {alice, bob (TOKEN), unauthenticated, plaintext, 'lurker' (lists TOKEN but holds no token: a method is pre-selected yet nothing ever runs), scripted key-skipping CLAIMTOBE client} with first command x; follow-on command x on the kept-alive connection; reconnect and explicitly resume the client's last session with command x; switch the authorizer table; raw send of x. All histories <= 3 events (quick: reduced alphabet; thorough: full alphabet) plus, in thorough, all histories of 4 events over a core alphabet (follow requires an open connection, resume requires a prior session). Plus all histories <= 3 over {open as alice / anonymous / 'alice-nc' / 'carol-nc' (TOKEN / CLAIMTOBE with no cipher in common: authenticated sessions whose key has no cipher / that have no key at all), a scripted requester without key or credentials naming one of their session ids in a resumption request, table switches}, against the default server and against a server configured with a session cache of its own. A monitor inside every handler records each dispatch; oracle: registered + right path (raw vs authenticated), authentication really ran on the wire for that session when the command requires it, stream really encrypted and canaries invisible when it requires encryption, identity currently authorized when a table is set; refused/unknown commands close the connection and nothing further runs. Non-trivial = history with >= 1 dispatch decision.",
 		Assume: []string{"16 worker processes, each with its own process-global server cache", "ground truth for 'authenticated' = an authentication exchange was seen on the wire when the session was created"},
 	}
 	p.Gen = func(tier string, yield func(vlib.Case)) {
